@@ -250,7 +250,7 @@ static int node_of_upipe(struct upipe *u)
     return -1;
 }
 
-void req_probe_provide(struct tprobe *p, struct upipe *upipe, struct urequest *urequest);
+int req_probe_provide(struct tprobe *p, struct upipe *upipe, struct urequest *urequest);
 static void req_sink_sync_answer(int sink, struct urequest *proxy);
 
 static int tprobe_catch(struct uprobe *uprobe, struct upipe *upipe, int event, va_list args)
@@ -317,8 +317,7 @@ static int tprobe_catch(struct uprobe *uprobe, struct upipe *upipe, int event, v
     }
     case UPROBE_PROVIDE_REQUEST: {
         struct urequest *urequest = va_arg(args, struct urequest *);
-        req_probe_provide(p, upipe, urequest);
-        return UBASE_ERR_NONE;
+        return req_probe_provide(p, upipe, urequest);
     }
     case UPROBE_SOURCE_END:
         /* an application that reacts to the end of a source by letting go of
@@ -1536,7 +1535,7 @@ static void gen_common(struct sim_rng *r, struct sim_plan *p, int which)
             /* the data plane with requests registered, answered from inside
              * register / set_output, and requesters that send from their callback */
             uint32_t q = sim_rng_below(r, 4);
-            if (q < 2) sim_plan_add(p, 0, OP_REQ_REGISTER, sim_rng_below(r, 4), sim_rng_below(r, 2), sim_rng_below(r, 2), sim_rng_below(r, 3), 0, 0);
+            if (q < 2) sim_plan_add(p, 0, OP_REQ_REGISTER, sim_rng_below(r, 4), sim_rng_below(r, 2), sim_rng_below(r, 4), sim_rng_below(r, 3), 0, 0);
             else if (q < 3) sim_plan_add(p, 0, OP_REQ_UNREGISTER, sim_rng_below(r, 4), 0, 0, 0, 0, 0);
             else sim_plan_add(p, 0, OP_REQ_PROVIDE, sim_rng_below(r, MAXS), sim_rng_below(r, 8), sim_rng_below(r, 1000), 0, 0, 0);
             continue;
